@@ -121,6 +121,8 @@ def gen_cases(thorough):
                 # the only argument may be written `name = expr` and still be referred to by position
                 add(derive, cont, lit_rs("{%s}" % sp) + ", a = " + last, "pass", "f%d" % (c.n - 1), ptrait, "bare, implicit index, one named argument")
                 add(derive, cont, lit_rs("{0%s}" % sp) + ", a = " + f0, "pass", "f0", ptrait, "bare, index 0, one named argument")
+                # a named argument may be called like a keyword (`format!("{type}", type = x)` is fine with std)
+                add(derive, cont, lit_rs("{type%s}" % sp) + ", type = " + last, "pass", "f%d" % (c.n - 1), ptrait, "bare, matching alias that is a keyword")
                 # a trailing comma (after the literal, after the only argument) changes nothing
                 add(derive, cont, lit_rs("{%s%s}" % (llast, sp)) + ",", "pass", "*f%d" % (c.n - 1), ptrait, "bare, field by name, trailing comma after the literal")
                 add(derive, cont, lit_rs("{0%s}" % sp) + ", " + f0 + ",", "pass", "f0", ptrait, "bare, index 0, trailing comma after the argument")
@@ -151,6 +153,30 @@ def gen_cases(thorough):
                 if il in ("{%s:>8}", "a{%s}", "{%s:x?}"):
                     add(derive, cont, lit_rs(il.replace("%s", "0")) + ", " + last, "inert", desc="inert (positional): " + il)
             add(derive, cont, lit_rs("text only"), "inert", desc="no placeholder")
+    # (u) unions: the attribute is mandatory and its arguments reach the fields through `self`; a bare placeholder still delegates
+    for derive in derives:
+        if derive == "Debug":
+            continue     # derive(Debug) does not take unions
+        for letter, ptrait in BY_LETTER.items():
+            if not thorough and ptrait not in ("Display", "LowerHex", derive):
+                continue
+            sp = (":" + letter) if letter else ""
+            for lit, args, exp, desc in ((lit_rs("{%s}" % sp), "unsafe { self.i }", "pass", "bare, implicit index"), (lit_rs("{0%s}" % sp), "unsafe { self.i }", "pass", "bare, index 0"),
+                                         (lit_rs("{a%s}" % sp), "a = unsafe { self.i }", "pass", "bare, alias"), (lit_rs("<{%s}>" % sp), "unsafe { self.i }", "inert", "with text"),
+                                         (lit_rs("{:>8%s}" % letter), "unsafe { self.i }", "inert", "own width")):
+                if ptrait == "Pointer" and exp == "pass":
+                    arg = "unsafe { t.i }"     # `{:p}` of the reference the field holds
+                else:
+                    arg = "unsafe { t.i }"
+                item = "#[derive(derive_more::%s)] #[%s(%s, %s)] pub union T { i: &'static i32 }" % (derive, ATTR[derive], lit, args)
+                if exp == "pass":
+                    body = 'for v0 in ivals() { let t = T { i: v0 }; r.eq(%s, grid_%s(&t), grid_%s(&(%s))); }' % (
+                        lit_rs("flags must apply to the argument under " + ptrait), derive.lower(), ptrait.lower(), arg)
+                else:
+                    body = 'for v0 in ivals() { let t = T { i: v0 }; let plain = format!("{:%s}", t); r.eq(%s, grid_%s(&t), vec![plain; NSPECS]); }' % (
+                        LETTER[derive], lit_rs("caller's flags must leave the output unchanged"), derive.lower())
+                mod = "use super::*;\n%s\npub fn run(r: &mut R) {\n    %s\n}" % (item, body)
+                cases.append(Case("c%d" % len(cases), mod, expect="ok", has_run=True, meta={"src": " ".join(item.split()), "expect": exp, "desc": "union: " + desc, "derive": derive}))
     # (e) ENUM-level attributes.  A bare `{_variant}` is a Display placeholder: under derive(Display) it is "as if absent", so the
     # flags reach whatever the variant itself delegates to; under any other derive the variant's text is not a Display argument and the
     # attribute is an ordinary (inert) format.  A non-wrapping enum-level literal is the format of the variants without their own one.
